@@ -1,5 +1,5 @@
 #!/usr/bin/env python3
-"""tools/regress_seeds.py [--streams 4] [--procs 4] [--only Cxx,...]
+"""tools/regress_seeds.py [--streams 4] [--procs 4] [--only Cxx,...] [--match -r6] [--out FILE.md]
 Re-runs every kept seeded change (seeded/*/) against the CURRENT checks and the CURRENT /repo HEAD: applies patch.diff in a
 scratch worktree, runs demo.py with and without it, runs ./check <prop> on the changed tree (and on patch_corrected.diff when
 the seed has one).  Writes seeded/REGRESSION.md.  A patch that no longer applies (the library was repaired in the same place
@@ -11,6 +11,8 @@ args = sys.argv[1:]
 streams = int(args[args.index("--streams") + 1]) if "--streams" in args else 4
 procs = args[args.index("--procs") + 1] if "--procs" in args else "4"
 only = set(args[args.index("--only") + 1].split(",")) if "--only" in args else None
+match = args[args.index("--match") + 1] if "--match" in args else None  # substring of the seed id, e.g. -r6
+outname = args[args.index("--out") + 1] if "--out" in args else "REGRESSION.md"
 
 
 def one(meta_path):
@@ -42,6 +44,8 @@ def one(meta_path):
 metas = sorted(glob.glob(os.path.join(V, "seeded", "*", "meta.json")))
 if only:
     metas = [m for m in metas if json.load(open(m))["property"] in only]
+if match:
+    metas = [m for m in metas if match in os.path.basename(os.path.dirname(m))]
 rows = []
 with cf.ThreadPoolExecutor(streams) as ex:
     for r in ex.map(one, metas):
@@ -50,7 +54,7 @@ with cf.ThreadPoolExecutor(streams) as ex:
 head = subprocess.run(["git", "-C", "/repo", "rev-parse", "--short", "HEAD"], capture_output=True, text=True).stdout.strip()
 vh = subprocess.run(["git", "-C", V, "rev-parse", "--short", "HEAD"], capture_output=True, text=True).stdout.strip()
 ok = sum(1 for r in rows if r["check_exit"] == "1")
-with open(os.path.join(V, "seeded", "REGRESSION.md"), "w") as f:
+with open(os.path.join(V, "seeded", outname), "w") as f:
     f.write(f"# Seeded changes re-run against the current checks\n\n/repo HEAD {head}, /verif HEAD {vh} (+ working tree), "
             f"quick tier. `check exit` 1 = reported, 0 = silent. `corrected exit` is the same check on the corrected pull "
             f"request (rounds 4-5), which must be 0. {ok} of {len(rows)} changed trees reported.\n\n"
